@@ -8,7 +8,7 @@ import ast
 from fractions import Fraction as F
 
 from ..astutil import call_attr, iter_calls, iter_stores, propagate, single_assign_env, walk_local
-from ..exprnf import SQRT3, ExprEval, Poly, Q3, matmul, matvec, mat_eq, poly, rot, rot90
+from ..exprnf import SQRT3, ExprEval, Poly, Q3, Rat, RatEval, matmul, matvec, mat_eq, poly, rot, rot90
 from ..flow import path_conditions, always_exits
 from ..index import AnalysisError, AnchorMissing, dotted, norm
 from ..lattice import HEX, if_chain, unit_steps
@@ -255,6 +255,10 @@ def r5_symmetry_lines(idx, r):
             parts = t.values if isinstance(t, ast.BoolOp) and isinstance(t.op, ast.And) else [t]
             eq = [p for p in parts if isinstance(p, ast.Compare) and isinstance(p.ops[0], ast.Eq)]
             sg = [p for p in parts if isinstance(p, ast.Compare) and isinstance(p.ops[0], (ast.Gt, ast.Lt, ast.GtE, ast.LtE))]
+            if len(eq) == 1 and not sg and len(parts) == 1:
+                r.violate(f"{leaf}:ray", f, f"guard `{norm(t)}` has no sign condition: it selects the whole line through the centre, i.e. also the cells on the opposite ray "
+                          f"({60 * want_dir[leaf] + 180} degrees), which lie on no symmetry line of the third-core view", node=t)
+                continue
             if len(eq) != 1 or not sg:
                 raise AnalysisError(f"symmetry-line guard `{norm(t)}` outside fragment")
             E = ExprEval(env={"i": I, "j": J}, opaque=False)
@@ -301,6 +305,42 @@ def r6_first_third(idx, r):
     r.require(norm(ret[-1].value) == "bool(pos <= maxPos1 or pos >= maxPos2)" and norm(ret[0].value) == "True", "membership", f, msg="in the first third iff pos <= maxPos1 or pos >= maxPos2 (ring 1 always)")
 
 
+def r7_rotation_number(idx, r):
+    """The orientation angle accumulates without wrapping (rotate adds rotNum*60 each time), so the number of
+    60-degree steps read back from it must be reduced modulo 6: six steps are the identity. Getter and setter are
+    inverse on 0..5: get = rint(angle / 60) mod 6, set: angle = 60 * k."""
+    g = idx.method("armi.reactor.blocks.HexBlock", "getRotationNum")
+    st_ = idx.method("armi.reactor.blocks.HexBlock", "setRotationNum")
+    if g is None or st_ is None:
+        raise AnchorMissing("HexBlock.getRotationNum / setRotationNum")
+    rets = [x for x in walk_local(g.node) if isinstance(x, ast.Return) and x.value is not None]
+    if len(rets) != 1:
+        raise AnalysisError("getRotationNum: expected a single return")
+    v = rets[0].value
+    while isinstance(v, ast.Call) and dotted(v.func) in ("int", "float") and len(v.args) == 1:
+        v = v.args[0]
+    is_mod6 = isinstance(v, ast.BinOp) and isinstance(v.op, ast.Mod) and isinstance(v.right, ast.Constant) and v.right.value == 6
+    r.require(is_mod6, "getRotationNum:mod-6", g, node=rets[0],
+              msg=f"`{norm(rets[0].value)[:70]}` is not reduced modulo 6: after rotations adding up to 360 degrees or more the step count is 6, 7, ... instead of 0, 1, ... "
+                  "(six steps are no longer the identity, and per-corner data moved by k mod 6 disagrees with the reported k)")
+    inner = v.left if is_mod6 else v
+    if isinstance(inner, ast.Call) and (dotted(inner.func) or "").split(".")[-1] in ("rint", "round") and inner.args:
+        E = RatEval()
+        got = E.ev(inner.args[0])
+        ang = sorted(got.n.atoms())
+        want_ok = len(ang) == 1 and got == Rat(Poly.atom(ang[0]), Poly.const(60)) and "orientation[2]" in ang[0]
+        r.require(want_ok, "getRotationNum:angle/60", g, node=inner, msg=f"the step count must be orientation[2] / 60 rounded; the argument evaluates to {got}")
+    else:
+        r.undecided("getRotationNum:angle/60", g, f"rounding form `{norm(inner)[:60]}` not recognised", node=inner)
+    sto = [x for x in iter_stores(st_.node) if "orientation" in (x.chain or norm(x.node))]
+    if len(sto) != 1:
+        raise AnalysisError("setRotationNum: expected one store into the orientation")
+    E = RatEval()
+    got = E.ev(sto[0].value)
+    p = [q for q in st_.params() if q != "self"][0]
+    r.require(got == Rat(Poly.const(60) * Poly.atom(p), Poly.const(1)), "setRotationNum:60k", st_, node=sto[0].stmt, msg=f"setRotationNum must store 60 x {p} degrees; it stores {got}")
+
+
 def run(idx, chk):
     chk.explanation = (
         "C08: the two third-core images and the six index rotations are extracted as integer matrices and shown to equal exact 120/60k degree "
@@ -318,3 +358,5 @@ def run(idx, chk):
                  necessary="pins, free-coordinate children, per-corner data, displacement and orientation move accordingly")
     chk.run_rule("R08.5", "symmetry-line classification: equality+sign guards select the 0/60/120-degree rays of the flats-up lattice", lambda r: r5_symmetry_lines(idx, r), floor=6, necessary="cells on symmetry lines are classified consistently with their coordinates")
     chk.run_rule("R08.6", "isInFirstThird: top-edge adjustment only for odd rings when requested; lower bound adjusted for even rings", lambda r: r6_first_third(idx, r), floor=4, necessary="each orbit has exactly one member in the modelled domain")
+    chk.run_rule("R08.7", "the rotation number read from the orientation is rint(angle/60) reduced modulo 6; setRotationNum stores 60 k", lambda r: r7_rotation_number(idx, r), floor=3,
+                 necessary="rotation by k steps 'composes additively, is the identity at k=6'; orientation moves accordingly")
